@@ -10,7 +10,9 @@ import (
 	"github.com/taurusgroup/multi-party-sig/internal/round"
 	"github.com/taurusgroup/multi-party-sig/internal/types"
 	"github.com/taurusgroup/multi-party-sig/pkg/hash"
+	"github.com/taurusgroup/multi-party-sig/pkg/math/arith"
 	"github.com/taurusgroup/multi-party-sig/pkg/math/polynomial"
+	"github.com/taurusgroup/multi-party-sig/pkg/pedersen"
 	"github.com/taurusgroup/multi-party-sig/pkg/paillier"
 	"github.com/taurusgroup/multi-party-sig/pkg/party"
 	"github.com/taurusgroup/multi-party-sig/verif/fx"
@@ -241,6 +243,30 @@ func c19Pairs(r *vk.Rand) []pair {
 	}
 	for _, sep := range []string{"\x00\x00\x00\x00\x00\x00\x00\x03", "\x00\x00\x00\x03"} {
 		ps = append(ps, pair{fmt.Sprintf("idslice3-embedded-separator-%x", sep), []aitem{aIDs([]string{"a", "b" + sep + "c", "x"})}, []aitem{aIDs([]string{"a" + sep + "b", "c", "x"})}})
+	}
+	// ring-Pedersen parameters (N, s, t) whose s is one byte shorter than the modulus: moving the first byte of t
+	// onto the end of s keeps the plain concatenation, the parameters differ
+	{
+		nB := r.Bytes(256)
+		nB[0] |= 0x80
+		nB[255] |= 1
+		sB := r.Bytes(255)
+		sB[0] |= 0x40
+		tB := r.Bytes(256)
+		tB[0] |= 0x01
+		tB[1] |= 0x01
+		s2 := append(append([]byte{}, sB...), tB[0])
+		t2 := append([]byte{}, tB[1:]...)
+		mkPed := func(n, sv, tv []byte) aitem {
+			var v []byte
+			for _, part := range [][]byte{n, sv, tv} {
+				var l [4]byte
+				binary.BigEndian.PutUint32(l[:], uint32(len(part)))
+				v = append(append(v, l[:]...), part...)
+			}
+			return aitem{"pedersen", v, pedersen.New(arith.ModulusFromN(saferith.ModulusFromBytes(n)), new(saferith.Nat).SetBytes(sv), new(saferith.Nat).SetBytes(tv))}
+		}
+		ps = append(ps, pair{"pedersen-boundary-shift", []aitem{mkPed(nB, sB, tB)}, []aitem{mkPed(nB, s2, t2)}})
 	}
 	e1 := aExp(r, 2, false)
 	e2 := aExp(r, 2, false)
